@@ -51,7 +51,9 @@ def make_data(case):
         x[i, j, :] = x[j, i, :] = 1.0
         # paired: a constant NONZERO difference has an undefined (0-variance, +-inf) statistic whose floating-point
         # evaluation is rounding noise on both sides; only the identical-constant edge (difference exactly 0) is used
-        y[i, j, :] = y[j, i, :] = 1.0 if (case.get('const_same', True) or case['paired']) else 2.0
+        # (a constant NONZERO paired difference gives an exactly infinite statistic as long as the values are small
+        #  integers: exact arithmetic on both sides; rescaled data never reaches this branch)
+        y[i, j, :] = y[j, i, :] = 1.0 if case.get('const_same', True) else 2.0
     if case.get('scales'):
         sc = 10.0 ** rs.uniform(-12, 0, size=(n, n))
         sc = np.triu(sc, 1)
